@@ -81,6 +81,7 @@ func (c *netCase) observe() {
 }
 
 func (c *netCase) exec(op string) {
+	c.reportCollisions()
 	fmt.Fprintf(c.w, "op %s\n", op)
 	f := strings.Fields(op)
 	atoi := func(s string) int { v, _ := strconv.Atoi(s); return v }
